@@ -90,6 +90,52 @@ def apiShard (m : Meta) (numShards : Nat) : Option Int :=
     | .byMetric => if numShards % u32 = 0 then none else some ((toU32 m.metricID % (numShards % u32) : Nat) : Int)
     | _ => some (-1)
 
+
+/-! ### the hashed part of a key: data_model.Key.MarshalAppend / Key.XXHash -/
+
+/-- data_model.Key (Tags are int32, STags byte strings; both arrays have format.MaxTags entries in Go, any length here) -/
+structure Key where
+  ts     : Nat
+  metric : Int
+  tags   : List Int
+  stags  : List (List UInt8)
+  deriving DecidableEq, Repr
+
+/-- binary.LittleEndian.PutUint32 -/
+def le32 (n : Nat) : List UInt8 :=
+  [UInt8.ofNat (n % 256), UInt8.ofNat (n / 256 % 256), UInt8.ofNat (n / 65536 % 256), UInt8.ofNat (n / 16777216 % 256)]
+
+/-- `for ; n > 0 && xs[n-1] is empty; n--` : drop the trailing empty entries -/
+def stripTrailing {α} (isEmpty : α → Bool) : List α → List α
+  | [] => []
+  | x :: rest =>
+    match stripTrailing isEmpty rest with
+    | [] => if isEmpty x then [] else [x]
+    | r => x :: r
+
+def tagBytes : List Int → List UInt8
+  | [] => []
+  | t :: rest => le32 (toU32 t) ++ tagBytes rest
+
+/-- the zero terminated strings. (The byte written for the string-tag count is overwritten by the first string —
+    `stagsPos` starts AT the count byte — and the last allocated byte stays 0; reproduced as the code does it.) -/
+def stagBytes : List (List UInt8) → List UInt8
+  | [] => []
+  | s :: rest => s ++ [0] ++ stagBytes rest
+
+/-- Key.MarshalAppend(nil) -/
+def marshalKey (k : Key) : List UInt8 :=
+  let tags := stripTrailing (fun t => t == 0) k.tags
+  let stags := stripTrailing (fun (s : List UInt8) => s.isEmpty) k.stags
+  le32 k.ts ++ (le32 (toU32 k.metric) ++ ([UInt8.ofNat tags.length] ++ (tagBytes tags ++ (stagBytes stags ++ [0]))))
+
+/-- what Key.XXHash feeds to xxh3: `scratch[4:]`, "skip timestamp in first 4 bytes" -/
+def hashInput (k : Key) : List UInt8 := (marshalKey k).drop 4
+
+/-- Agent.shard for a key, xxh3 being any function `H` of the hashed bytes -/
+def agentShardKey (H : List UInt8 → Nat) (m : Meta) (k : Key) (count nShards : Nat) : Option AgentShard :=
+  agentShard m k.metric (H (hashInput k)) count nShards
+
 /-! ### replicas: Agent.getShardReplicaForSecond -/
 
 /-- `int(timestamp % 3)` -/
